@@ -546,6 +546,64 @@ def m_saturating_add(M, a, c, fr):
     return z3.If(z3.ULT(s, x), bv(2 ** x.size() - 1, x.size()), s)
 
 
+# ----------------------------------------------------------------------------- BTreeMap as z3 arrays
+def keyval(k):
+    """map key -> z3 term: newtype-like keys ([scalar, None]) are unwrapped"""
+    while isinstance(k, list):
+        ks = [x for x in k if x is not None]
+        if len(ks) != 1: raise Inconclusive('composite map key %r' % (k,))
+        k = ks[0]
+    return k
+
+
+def m_map_new(M, a, c, fr):
+    mk = M.aux.get('new_map')
+    if mk is not None:
+        r = mk(M, c)
+        if r is not None: return r
+    if re.search(r'BTreeMap::<u32, u32>', c) or 'BTreeMap<u32, u32>' in c:
+        return MapV(z3.K(z3.BitVecSort(32), z3.BoolVal(False)), z3.K(z3.BitVecSort(32), bv(0, 32)))
+    raise Inconclusive('BTreeMap::new for unknown key/value sorts: ' + c)
+
+
+def m_map_entry(M, a, c, fr):
+    m = M.load(a[0]); key = keyval(a[1])
+    occ = M.concrete_bool(z3.Select(m.present, key), 'BTreeMap::entry')
+    k = 1 if occ else 0
+    return EnumV('Entry', k, {k: [[a[0], key]]})
+
+
+def m_vacant_insert(M, a, c, fr):
+    mref, key = a[0]; m = M.load(mref)
+    M.store(mref, MapV(z3.Store(m.present, key, True), z3.Store(m.val, key, keyval(a[1])), m.extra))
+    return Ref(Cell(a[1]))
+
+
+def m_occupied_get(M, a, c, fr):
+    mref, key = deref(M, a[0]); m = M.load(mref)
+    return Ref(Cell(z3.Select(m.val, key)))
+
+
+def m_map_get(M, a, c, fr):
+    m = M.load(a[0]); key = keyval(deref(M, a[1]))
+    if M.concrete_bool(z3.Select(m.present, key), 'BTreeMap::get'):
+        v = z3.Select(m.val, key)
+        if m.extra is not None and 'unwrap_val' in m.extra: v = m.extra['unwrap_val'](v)
+        return opt_some(Ref(Cell(v)))
+    return opt_none()
+
+
+def m_map_insert(M, a, c, fr):
+    m = M.load(a[0]); key = keyval(a[1])
+    val = a[2]
+    if m.extra is not None and 'wrap_val' in m.extra: val = m.extra['wrap_val'](M, val)
+    was = M.concrete_bool(z3.Select(m.present, key), 'BTreeMap::insert')
+    old = z3.Select(m.val, key)
+    M.store(a[0], MapV(z3.Store(m.present, key, True), z3.Store(m.val, key, keyval(val)), m.extra))
+    M.aux.setdefault('map_inserts', []).append((key, was))
+    return opt_some(old) if was else opt_none()
+
+
 def m_write_fmt(M, a, c, fr):
     M.aux.setdefault('fmt_log', []).append(a[1])
     return res_ok([])
@@ -581,6 +639,12 @@ MODELS = [
     (r'core::slice::<impl \[.*\]>::split_first', m_split_first), (r'core::slice::<impl \[.*\]>::split_last', m_split_last),
     (r'core::slice::<impl \[.*\]>::first', m_slice_first), (r'core::slice::<impl \[.*\]>::last', m_slice_last),
     (r'(std|alloc)::slice::<impl \[.*\]>::join::<&str>', m_join),
+    # BTreeMap (array model)
+    (r'BTreeMap::<.*>::new', m_map_new), (r'<BTreeMap<.*> as Default>::default', m_map_new),
+    (r'BTreeMap::<.*>::entry', m_map_entry),
+    (r"std::collections::btree_map::VacantEntry::<.*>::insert", m_vacant_insert),
+    (r"std::collections::btree_map::OccupiedEntry::<.*>::get", m_occupied_get),
+    (r'BTreeMap::<.*>::get::<.*>', m_map_get), (r'BTreeMap::<.*>::insert', m_map_insert),
     # Option / Result
     (r'Option::<.*>::map::<.*>', m_opt_map), (r'Option::<.*>::map_or::<.*>', m_opt_map_or),
     (r'Option::<.*>::unwrap_or', m_opt_unwrap_or), (r'Option::<.*>::cloned', m_opt_cloned),
